@@ -93,6 +93,16 @@ func simBudget(spec *RunSpec) time.Duration {
 	if sum < time.Hour {
 		sum = time.Hour
 	}
+	if spec.Policy.ReplyP > 0 {
+		// slow-read-reply: every storage read of an API call or of a start-up may be
+		// answered up to 1000 s late; that is the fault's doing, not a hang
+		ops := 0
+		for _, cl := range spec.Clients {
+			ops += len(cl)
+		}
+		reads := 3*ops + 10 + (len(spec.Crashes)+1)*(len(spec.Plans)+2)
+		sum += time.Duration(reads) * 1001 * time.Second
+	}
 	return sum
 }
 
